@@ -204,6 +204,22 @@ func getTaggedFieldValueMap(v reflect.Value) (map[string]any, error) {
 	result := make(map[string]any, size)
 
 	for i := 0; i < size; i++ {
+		if field := rt.Field(i); field.Anonymous && mapping.Deref(field.Type).Kind() == reflect.Struct {
+			// 内嵌结构体：其带 db 标签的字段同样按列名映射
+			inner, err := getTaggedFieldValueMap(reflect.Indirect(v).Field(i))
+			if err != nil {
+				return nil, err
+			}
+			if inner == nil {
+				return nil, nil
+			}
+
+			for key, val := range inner {
+				result[key] = val
+			}
+			continue
+		}
+
 		key := parseTagName(rt.Field(i))
 		if len(key) == 0 {
 			return nil, nil
